@@ -232,8 +232,27 @@ func exprFull(e ast.Expr) string {
 		return exprFull(x.X) + " " + x.Op.String() + " " + exprFull(x.Y)
 	case *ast.ParenExpr:
 		return "(" + exprFull(x.X) + ")"
+	case *ast.CompositeLit:
+		var a []string
+		for _, el := range x.Elts {
+			a = append(a, exprFull(el))
+		}
+		t := ""
+		if x.Type != nil {
+			t = exprFull(x.Type)
+		}
+		return t + "{" + strings.Join(a, ", ") + "}"
+	case *ast.KeyValueExpr:
+		return exprFull(x.Key) + ": " + exprFull(x.Value)
+	case *ast.IndexExpr:
+		return exprFull(x.X) + "[" + exprFull(x.Index) + "]"
 	}
 	return exprString(e)
+}
+
+func parseOnly(rel string) *ast.File {
+	_, f := parseFile(rel)
+	return f
 }
 
 func jsonTag(f *ast.Field) string {
@@ -343,6 +362,176 @@ func extractC02() *lean {
 		})
 	}
 	l.def("emptyVpBranchComparesExpected", "Bool", fmt.Sprint(emptyChecked), emptyChecked)
+
+	// every if-condition (verbatim, in source order) of the functions that decide: a weakened comparison flips a fact
+	_, credUtil := parseFile("vcr/credential/util.go")
+	_, credRes := parseFile("vcr/credential/resolver.go")
+	_, polLocal := parseFile("policy/local.go")
+	for _, fc := range []struct {
+		name string
+		f    *ast.File
+		fn   string
+	}{
+		{"condsHandleTokenRequest", api, "HandleTokenRequest"},
+		{"condsS2S", s2s, "handleS2SAccessTokenRequest"},
+		{"condsS2SNonce", s2s, "validateS2SPresentationNonce"},
+		{"condsExtractNonce", s2s, "extractNonce"},
+		{"condsExtractChallenge", o4vp, "extractChallenge"},
+		{"condsPresentationNonce", o4vp, "validatePresentationNonce"},
+		{"condsAuthorizeResponse", o4vp, "handleAuthorizeResponseSubmission"},
+		{"condsAuthorizeRequest", o4vp, "handleAuthorizeRequestFromHolder"},
+		{"condsCodeToken", o4vp, "handleAccessTokenRequest"},
+		{"condsFulfill", sess, "fulfill"},
+		{"condsNext", sess, "next"},
+		{"condsCreateAccessToken", at, "createAccessToken"},
+		{"condsResolveInputDescriptorValues", s2s, "resolveInputDescriptorValues"},
+		{"condsIntrospect", api, "introspectAccessToken"},
+		{"condsIntrospectPlain", api, "IntrospectAccessToken"},
+		{"condsDefinitionForScope", val, "presentationDefinitionForScope"},
+		{"condsPresenterIsCredentialSubject", credUtil, "PresenterIsCredentialSubject"},
+		{"condsResolveSubjectDID", credUtil, "ResolveSubjectDID"},
+		{"condsPresentationSigner", credRes, "PresentationSigner"},
+		{"condsLocalPDPDefinitions", polLocal, "PresentationDefinitions"},
+		{"condsStoreGet", store, "Get"},
+		{"condsStorePut", store, "Put"},
+		{"condsPutIfAbsent", store, "PutIfAbsent"},
+	} {
+		c := conds(fc.f, fc.fn)
+		l.def(fc.name, "List String", leanStrList(c), c)
+	}
+	// return expressions of the small helpers
+	rets := func(f *ast.File, fn string) []string {
+		fd := funcDecl(f, fn)
+		if fd == nil {
+			return []string{"MISSING:" + fn}
+		}
+		var r []string
+		ast.Inspect(fd, func(n ast.Node) bool {
+			if rs, ok := n.(*ast.ReturnStmt); ok {
+				var parts []string
+				for _, e := range rs.Results {
+					parts = append(parts, exprFull(e))
+				}
+				r = append(r, strings.Join(parts, ", "))
+			}
+			return true
+		})
+		return r
+	}
+	for _, fc := range []struct {
+		name string
+		f    *ast.File
+		fn   string
+	}{
+		{"retsSubjectToBaseURL", api, "subjectToBaseURL"},
+		{"retsValidatePKCE", pkce, "validatePKCEParams"},
+		{"retsIsFulfilled", sess, "isFulfilled"},
+		{"retsDpopFromRequest", parseOnly("auth/api/iam/dpop.go"), "dpopFromRequest"},
+	} {
+		c := rets(fc.f, fc.fn)
+		l.def(fc.name, "List String", leanStrList(c), c)
+	}
+	// the call of the s2s handler in HandleTokenRequest: which request members go where
+	var s2sCall []string
+	if fd := funcDecl(api, "HandleTokenRequest"); fd != nil {
+		ast.Inspect(fd, func(n ast.Node) bool {
+			if c, ok := n.(*ast.CallExpr); ok && (callName(c) == "handleS2SAccessTokenRequest" || callName(c) == "handleAccessTokenRequest") {
+				for _, a := range c.Args {
+					s2sCall = append(s2sCall, exprFull(a))
+				}
+				s2sCall = append(s2sCall, "|")
+			}
+			return true
+		})
+	}
+	l.def("tokenRequestDispatchArgs", "List String", leanStrList(s2sCall), s2sCall)
+	var grantCases []string
+	if fd := funcDecl(api, "HandleTokenRequest"); fd != nil {
+		ast.Inspect(fd, func(n ast.Node) bool {
+			if sw, ok := n.(*ast.SwitchStmt); ok {
+				grantCases = append(grantCases, "switch "+exprFull(sw.Tag))
+			}
+			if cc, ok := n.(*ast.CaseClause); ok {
+				if cc.List == nil {
+					grantCases = append(grantCases, "default")
+				}
+				for _, e := range cc.List {
+					grantCases = append(grantCases, exprFull(e))
+				}
+			}
+			return true
+		})
+	}
+	l.def("tokenRequestGrantCases", "List String", leanStrList(grantCases), grantCases)
+	// the OAuthSession the authorization request stores
+	if fd := funcDecl(o4vp, "handleAuthorizeRequestFromHolder"); fd != nil {
+		f := compositeFields(fd, "OAuthSession")
+		l.def("authorizeRequestSessionInit", "List String", leanStrList(f), f)
+	}
+	// key prefixes of the session stores: accessor -> GetStore key arguments (identifiers resolved to their []string literal)
+	strVars := map[string][]string{}
+	for _, f := range []*ast.File{s2s, api, user, o4vp} {
+		for _, d := range f.Decls {
+			gd, ok := d.(*ast.GenDecl)
+			if !ok || gd.Tok != token.VAR {
+				continue
+			}
+			for _, sp := range gd.Specs {
+				vs := sp.(*ast.ValueSpec)
+				for i, nm := range vs.Names {
+					if i < len(vs.Values) {
+						if cl, ok := vs.Values[i].(*ast.CompositeLit); ok {
+							var vals []string
+							for _, e := range cl.Elts {
+								if bl, ok := e.(*ast.BasicLit); ok && bl.Kind == token.STRING {
+									v, _ := strconv.Unquote(bl.Value)
+									vals = append(vals, v)
+								}
+							}
+							strVars[nm.Name] = vals
+						}
+					}
+				}
+			}
+		}
+	}
+	var storeKeys, storeKeyValues []string
+	for _, acc := range []struct {
+		f  *ast.File
+		fn string
+	}{{s2s, "s2sNonceStore"}, {api, "accessTokenServerStore"}, {api, "accessTokenClientStore"}, {api, "accessTokenCache"}, {api, "authzRequestObjectStore"},
+		{o4vp, "oauthCodeStore"}, {o4vp, "oauthNonceStore"}, {user, "oauthClientStateStore"}, {parseOnly("auth/api/iam/dpop.go"), "useNonceOnceStore"}} {
+		fd := funcDecl(acc.f, acc.fn)
+		key := "MISSING"
+		if fd != nil {
+			ast.Inspect(fd, func(n ast.Node) bool {
+				if c, ok := n.(*ast.CallExpr); ok && callName(c) == "GetSessionDatabase.GetStore" && len(c.Args) > 1 {
+					var parts []string
+					for _, a := range c.Args[1:] {
+						switch x := a.(type) {
+						case *ast.BasicLit:
+							v, _ := strconv.Unquote(x.Value)
+							parts = append(parts, v)
+						case *ast.Ident:
+							if v, ok := strVars[x.Name]; ok {
+								parts = append(parts, v...)
+							} else {
+								parts = append(parts, "?"+x.Name)
+							}
+						default:
+							parts = append(parts, "?"+exprFull(a))
+						}
+					}
+					key = strings.Join(parts, "/")
+				}
+				return true
+			})
+		}
+		storeKeys = append(storeKeys, acc.fn+"="+key)
+		storeKeyValues = append(storeKeyValues, key)
+	}
+	l.def("storeKeyPrefixes", "List String", leanStrList(storeKeys), storeKeys)
+	l.def("storeKeyPrefixValues", "List String", leanStrList(storeKeyValues), storeKeyValues)
 
 	// call chains, in source order
 	l.chain("chainHandleTokenRequest", api, "HandleTokenRequest")
